@@ -252,6 +252,50 @@ func min64(a, b int64) int64 {
 	return b
 }
 
+// localizeMembers makes an oracle-set claim acceptable to the real message server: claimLogicCheck requires every
+// member address to be the external address of a registered oracle (repetitions are allowed), and
+// UpdateOracleSetExecuted only records the observed set unconditionally for OracleSetNonce 0.  Addresses are
+// renamed consistently over both claims of the pair (distinct stays distinct at every position where they differ).
+func localizeMembers(ct *extract.Claim, x *lib.XChain, p pairT, claims ...crosschaintypes.ExternalClaim) {
+	var mf string
+	for _, f := range ct.Fields {
+		if f.Kind == "members" {
+			mf = f.Name
+		}
+	}
+	if mf == "" {
+		return
+	}
+	la := fieldOf(p.a, mf).Interface().([]crosschaintypes.BridgeValidator)
+	lb := fieldOf(p.b, mf).Interface().([]crosschaintypes.BridgeValidator)
+	n := len(x.Oracles)
+	m := map[string]int{}
+	for k, mem := range la {
+		if _, ok := m[mem.ExternalAddress]; !ok {
+			m[mem.ExternalAddress] = k % n
+		}
+	}
+	for k, mem := range lb {
+		if _, ok := m[mem.ExternalAddress]; !ok {
+			m[mem.ExternalAddress] = k % n
+			if k < len(la) && la[k].ExternalAddress != mem.ExternalAddress && m[la[k].ExternalAddress] == k%n {
+				m[mem.ExternalAddress] = (k + 1) % n
+			}
+		}
+	}
+	for _, c := range claims {
+		l := fieldOf(c, mf).Interface().([]crosschaintypes.BridgeValidator)
+		for k := range l {
+			if i, ok := m[l[k].ExternalAddress]; ok {
+				l[k].ExternalAddress = x.Oracles[i].ExtAddr
+			}
+		}
+		if f := ct.Field("OracleSetNonce"); f != nil {
+			fieldOf(c, "OracleSetNonce").SetUint(0)
+		}
+	}
+}
+
 // replayThroughQuorum pushes a colliding pair (a, b) through a real 3-oracle quorum twice:
 // control: oracle 0 and oracle 1 vote a;  variant: oracle 0 votes a, oracle 1 (crossing) votes b.
 // It reports what was executed and how the resulting state differs.
@@ -267,6 +311,7 @@ func replayThroughQuorum(rep *lib.Report, tab *extract.Table, p pairT, sig strin
 		fieldOf(first, "EventNonce").SetUint(1)
 		sec := clone(ct, second)
 		fieldOf(sec, "EventNonce").SetUint(1)
+		localizeMembers(ct, x, p, first, sec)
 		for i, cl := range []crosschaintypes.ExternalClaim{first, sec} {
 			err := x.Claim(x.Oracles[i], cl)
 			if e := cl.ValidateBasic(); e != nil {
